@@ -19,6 +19,65 @@ def install_fn(cx):
     return cs[0]
 
 
+def _follower_setters(cx):
+    out = {}
+    by_fn = {}
+    for s in cx.prog.writes.get(STATE, []):
+        if "stmt" in s.data:
+            by_fn.setdefault(s.fn.key, []).append(s)
+    for k, ws in by_fn.items():
+        if all(write_value(cx, w) == ("enum", "raft::raft::StateRole", "Follower") for w in ws):
+            out[k] = ws[0].fn
+    return out
+
+
+@obligation("SNAP.install_as_follower", ["C15", "C16"], floor=2, kind="typestate (caller context / dominating transition)",
+            why="the install function bumps the term of a non-follower as defence in depth; reaching it as (pre)candidate raises a term nobody won and deposes a healthy leader")
+def install_as_follower(cx):
+    from ..engine import _clause_holds
+    inst = install_fn(cx).fn
+    setters = _follower_setters(cx)
+    cx.check(bool(setters), "setters", "a function that establishes state == Follower exists")
+
+    def follower(l):
+        return l[0] == "in" and is_f(l[1], STATE) and l[2] == frozenset(["Follower"])
+    def site_ok(c, depth):
+        ok, _, _, _ = _clause_holds(cx, c, follower, True)
+        if ok:
+            return True, "dispatched under state == Follower"
+        g = cx.pg(c.fn)
+        setblocks = set()
+        for sp, x in cx.prog.calls_out[c.fn.key]:
+            if x.kind == "call" and any(k in setters for k in cx.prog.short.get(sp, [])):
+                setblocks.add(x.block)
+        if setblocks and g.dominated_by_block(c.at, lambda b: b in setblocks):
+            clean = True
+            for sp, x in cx.prog.calls_out[c.fn.key]:
+                if x.kind != "call" or x.block in setblocks or x.block == c.block:
+                    continue
+                if STATE in cx.prog.modset_short(sp) and any(g.block_reaches(sb, lambda b, x=x: b == x.block) for sb in setblocks) and g.block_reaches(x.block, lambda b: b == c.block):
+                    clean = False
+            if clean:
+                return True, "after a transition to Follower in the same arm"
+        if c.fn.vis != "Public" and depth > 0:
+            cs = callers_of(cx, c.fn)
+            if cs and all(site_ok(cc, depth - 1)[0] for cc in cs):
+                return True, "every caller of %s establishes state == Follower" % fn_name(c.fn)
+        return False, "neither dispatched under state == Follower nor preceded by a transition to Follower"
+    n = 0
+    for c in callers_of(cx, inst):
+        # the direct caller (the MsgSnapshot handler) and, through it, each dispatcher arm
+        sites = [c]
+        ok, how = site_ok(c, 0)
+        if not ok and c.fn.vis != "Public":
+            sites = callers_of(cx, c.fn)
+        for sc in sites:
+            ok, how = site_ok(sc, 2)
+            cx.check(ok, cx.site_key(sc, "as-follower"), "the snapshot install is reached only as a follower (%s)" % how, sc)
+            n += 1
+    cx.check(n >= 2, "floor", "in-crate paths into the snapshot install were found")
+
+
 @obligation("SNAP.install_guards", ["C15"], floor=4, kind="guard (CNF) + must-not-reach",
             why="a stale or foreign snapshot must not replace the log; an already-matching one must discard nothing")
 def install_guards(cx):
